@@ -48,20 +48,20 @@ def parseBlocks (impl : List String) : Option (List Block) :=
     | [] => none
 
 /-- replay on the low-memory model: rendered blocks, or the index of the first op not enabled -/
-def replayLM (c : LM.Cfg) (n : Nat) (bs : List Block) : String :=
+def replayLM (c : LM.Cfg) (hb : Bool) (n : Nat) (bs : List Block) : String :=
   let rec go (m : LM.MS) (i : Nat) (acc : List String) : List Block → String
     | [] => unwords acc.reverse
     | b :: rest =>
-      match LM.block? c m b with
+      match LM.block? c hb m b with
       | none => unwords (acc.reverse ++ [s!"reject@{i}", b.op.render])
       | some m' => go m' (i + 1) ((LM.observe m' b).render :: acc) rest
   go { s := LM.init n } 0 [] bs
 
-def replayStd (cap n : Nat) (bs : List Block) : String :=
+def replayStd (hb : Bool) (cap n : Nat) (bs : List Block) : String :=
   let rec go (m : Std.MS) (i : Nat) (acc : List String) : List Block → String
     | [] => unwords acc.reverse
     | b :: rest =>
-      match Std.block? m b with
+      match Std.block? hb m b with
       | none => unwords (acc.reverse ++ [s!"reject@{i}", b.op.render])
       | some m' => go m' (i + 1) ((Std.observe m' b).render :: acc) rest
   go { s := Std.init cap n } 0 [] bs
@@ -75,11 +75,13 @@ def run (args impl : List String) : Option (String × List Block × Bool × Nat)
   | kind :: cap :: n :: _ => do
     let cap ← nat? cap; let n ← nat? n
     if cap = 0 then none
+    let hb := !(kind.endsWith "-nohb")
+    let kind := if hb then kind else (kind.dropEnd 5).toString
     match parseBlocks impl with
     | none => pure ("bad-impl", [], kind = "std", cap)
     | some bs =>
-      if kind = "std" then pure (replayStd cap n bs, bs, true, cap)
-      else if kind = "lowmem" then pure (replayLM (repoCfg cap) n bs, bs, false, cap)
+      if kind = "std" then pure (replayStd hb cap n bs, bs, true, cap)
+      else if kind = "lowmem" then pure (replayLM (repoCfg cap) hb n bs, bs, false, cap)
       else none
   | _ => none
 
